@@ -27,4 +27,12 @@ def C16_starts_with_join_ids : Prop := ∀ (cfg : Cfg) (evs : List Ev), startsWi
     (`C16_after_stop_only_leave`) and no JoinGroup once `stop()` was called (`C16_no_join_after_stop_called`). -/
 def C16_after_stop_called_only_leave : Prop := ∀ (cfg : Cfg) (evs : List Ev), strictAfterStop (toMSteps (run cfg evs)) = true
 
+/-- "Every consumer of the previous generation has been shut down — committing its progress unless
+    the coordinator rejects the commit" (monitor `gracefulDrain`): a consumer is hard-stopped only by an
+    eviction or fatal error, or by the documented fallback when a shutdown fails.  FALSE of the code
+    (`C16_graceful_drain_counterexample`, known finding `stop-kills-consumers-draining-for-rejoin`): a
+    user `stop()` while a rejoin's `on_join_prepare` is draining finds `self.consumers` empty, goes
+    straight to `Coordinator.stop`, and cancelling the join kills the draining consumers mid-shutdown. -/
+def C16_graceful_drain : Prop := ∀ (cfg : Cfg) (evs : List Ev), gracefulDrain (toMSteps (run cfg evs)) = true
+
 end Afkak.Props.C16.Open
